@@ -31,8 +31,12 @@ def main():
     meta = {'seed': sid, 'breaks_property': checks[0] if checks else None, 'evaluated_at_repo_head': sh('git -C /repo rev-parse --short HEAD')[1].strip()}
     try:
         demo = os.path.join(src, 'demo.py')
+        # run a copy placed at <tree>/out/seed/demo.py: some demos locate the tree relative to their own position
+        os.makedirs(os.path.join(S, 'out', 'seed'), exist_ok=True)
+        shutil.copy(demo, os.path.join(S, 'out', 'seed', 'demo.py'))
+        demo_run = os.path.join(S, 'out', 'seed', 'demo.py')
         env = {'PYTHONPATH': S}
-        rc0, out0 = sh('/venv/bin/python %s' % demo, cwd=S, env=env)
+        rc0, out0 = sh('/venv/bin/python %s' % demo_run, cwd=S, env=env)
         meta['demo_on_clean_tree_rc'] = rc0
         rc, out = sh('patch -p1 -s < %s' % os.path.join(src, 'patch.diff'), cwd=S)
         meta['patch_applies'] = rc == 0
@@ -43,7 +47,7 @@ def main():
         meta['suite_with_patch'] = out.strip()
         import re
         suite_ok = not re.search(r'\b\d+ (failed|error)', out) and 'passed' in out
-        rc1, out1 = sh('/venv/bin/python %s' % demo, cwd=S, env=env)
+        rc1, out1 = sh('/venv/bin/python %s' % demo_run, cwd=S, env=env)
         meta['demo_with_patch_rc'] = rc1
         meta['demo_with_patch_output'] = out1.strip()[-500:]
         valid = suite_ok and rc0 == 0 and rc1 != 0
